@@ -289,7 +289,7 @@ static Reg r_kr("tmkr", [](const Args& A) {
 
 void gv::generate(const std::string& tier, uint64_t seed) {
   Rng r(seed * 2862933555777941757ULL + 6);
-  long n = tier == "thorough" ? 6000 : 420;
+  long n = tier == "thorough" ? 10000 : 1300;
   struct El { double a, f; }; std::vector<El> els = {{aW, fW}, {6.4e6, 1 / 150.0}, {6.4e6, 0.01}, {6.4e6, -0.01}, {6.4e6, 0.1}, {aW, fW}};
   std::vector<double> k0s = {1, 0.9996, 10}, lon0s = {0, 7, -123.5, 179, -180, 540, -75.25, 1e-10};
   std::vector<double> dls = {0, 1e-10, 3, 35, 60, 89, 90, 90 - 1e-10, 90 + 1e-10, 179, 180};
